@@ -120,6 +120,9 @@ T = {
 
 LEVEL = {'C18': 'exploration', 'C20': 'fault_enumeration'}
 
+# properties whose check has been accepted (quiet on the unchanged tree, mutants killed)
+READY = ['C01', 'C02', 'C06', 'C18']
+
 
 def main():
     checks = []
@@ -127,7 +130,7 @@ def main():
     for pid in sorted(PROPS):
         path = os.path.join(V, PROPS[pid].replace('.', '/') + '.py')
         tech, text, note = T[pid]
-        if os.path.exists(path):
+        if os.path.exists(path) and pid in READY:
             checks.append({
                 'property_id': pid,
                 'quick_cmd': './check %s --tier quick' % pid,
